@@ -180,6 +180,7 @@ def check(ctx):
     # way of changing what it is built from, the grain_model setter included (shared with C14.R6)
     from .c14 import _r6 as live_views
     ctx.absorb(lambda sub: live_views(sub, package(sub.tree)), "R11", only=lambda o: "Network.grains:" in o.key and o.outcome != "MISSING")
+    _r12_tunnelling(ctx, pkg)
 
 
 def _r9_refusal_not_caught(ctx, pkg):
@@ -612,6 +613,8 @@ RR = "naunet/grains/rr07grain.py"
 GR = "naunet/grains/grain.py"
 _EB_CHAIN = "        eb = (\n            self._binding_energy\n            or chemistrydata.user_binding_energy.get(self.name)\n            or chemistrydata.rate12_binding_energy.get(self.gasname)\n        )\n"
 MUTANTS = [
+    {"name": "tunnelling-by-mass", "file": "naunet/grains/hh93grain.py", "old": '        elif re1.name in ["GH", "GH2"]:', "new": '        elif re1.A <= 2:', "rules": ["R12"]},
+    {"name": "tunnelling-list-widened", "file": "naunet/grains/hh93grain.py", "old": '        elif re2.name in ["GH", "GH2"]:', "new": '        elif re2.name in ["GH", "GH2", "GD"]:', "rules": ["R12"]},
     {"name": "binding-energy-user-table-before-explicit", "file": SPECIES, "old": _EB_CHAIN,
      "new": "        eb = (\n            chemistrydata.user_binding_energy.get(self.name)\n            or self._binding_energy\n            or chemistrydata.rate12_binding_energy.get(self.gasname)\n        )\n", "rules": ["R3"]},
     {"name": "binding-energy-guard-clauses-table-before-user", "file": SPECIES, "old": _EB_CHAIN,
@@ -651,3 +654,91 @@ BENIGN = [
     {"name": "factors-reordered", "file": HH, "old": '                f"{opt_thd} * {cov}",\n                f"{nMono} * {densites}",', "new": '                f"{nMono} * {densites}",\n                f"{cov} * {opt_thd}",'},
     {"name": "sqrt-as-pow", "file": GR, "old": 'f"sqrt(8.0 * kerg * {tgas}/ (pi*amu*{spec.A}))"', "new": 'f"pow(8.0 * kerg * {tgas}/ (pi*amu*{spec.A}), 0.5)"'},
 ]
+
+
+# ------------------------------------------------------------------ R12  who tunnels (HH93)
+
+TUNNELLING = {"GH", "GH2"}       # Hasegawa & Herbst 1993: quantum tunnelling for atomic and molecular hydrogen on the surface, nothing else
+
+
+def _r12_tunnelling(ctx, pkg):
+    """In the HH93 surface rate the quantum terms (diffusion by tunnelling, tunnelling through the activation barrier) are switched on
+    by WHICH species reacts: surface H and H2.  Every condition that guards a term built with the quantum factor is a membership test
+    of a reactant's name in a list within {GH, GH2} -- a test on the mass number lets deuterium (A = 2) tunnel, a wider list lets
+    heavier species tunnel."""
+    import ast as _ast
+    HF = "naunet/grains/hh93grain.py"
+    ci = pkg.cls("HH93Grain")
+    meths = {k: fn for k, fn in ci.methods.items() if isinstance(fn, _ast.FunctionDef)}
+    uses_q = {k for k, fn in meths.items() if any(isinstance(n, _ast.Attribute) and n.attr == "quantum_diffusion_rate_factor" for n in _ast.walk(fn))}
+    if not uses_q:
+        ctx.unrec("R12", "HH93:tunnelling species", (HF, ci.node.lineno), "no method of HH93Grain reads the quantum diffusion factor")
+        return
+    # methods reached from those (selection helpers)
+    todo, scope = list(uses_q), set(uses_q)
+    while todo:
+        k = todo.pop()
+        for n in _ast.walk(meths[k]):
+            if isinstance(n, _ast.Call) and isinstance(n.func, _ast.Attribute) and isinstance(n.func.value, _ast.Name) and n.func.value.id in ("self", "cls") and n.func.attr in meths \
+                    and n.func.attr not in scope and not n.func.attr.startswith("rate_"):
+                scope.add(n.func.attr)
+                todo.append(n.func.attr)
+    n_ok = 0
+    for k in sorted(scope):
+        fn = meths[k]
+        conds = []
+        for n in _ast.walk(fn):
+            if isinstance(n, (_ast.If, _ast.IfExp, _ast.While)):
+                conds.append(n.test)
+            elif isinstance(n, _ast.comprehension):
+                conds += n.ifs
+            elif isinstance(n, _ast.Return) and n.value is not None and isinstance(n.value, (_ast.Compare, _ast.BoolOp)) and k not in uses_q:
+                conds.append(n.value)          # a predicate helper: what it returns IS the condition
+        atoms = []
+        for c in conds:
+            todo_ = [c]
+            while todo_:
+                x = todo_.pop()
+                if isinstance(x, _ast.BoolOp):
+                    todo_ += x.values
+                elif isinstance(x, _ast.UnaryOp) and isinstance(x.op, _ast.Not):
+                    todo_.append(x.operand)
+                elif isinstance(x, _ast.Call) and isinstance(x.func, _ast.Name) and x.func.id in ("any", "all") and x.args and isinstance(x.args[0], (_ast.GeneratorExp, _ast.ListComp)):
+                    todo_.append(x.args[0].elt)
+                elif isinstance(x, _ast.Name):
+                    # a named test: `light1 = re1.name in [...]` ... `x if light1 else y`
+                    loc = [y.value for y in _ast.walk(fn) if isinstance(y, _ast.Assign) and len(y.targets) == 1 and isinstance(y.targets[0], _ast.Name) and y.targets[0].id == x.id]
+                    if len(loc) == 1 and isinstance(loc[0], (_ast.Compare, _ast.BoolOp, _ast.UnaryOp, _ast.Call)):
+                        todo_.append(loc[0])
+                else:
+                    atoms.append(x)
+        for a in atoms:
+            src = _ast.unparse(a)
+            if isinstance(a, _ast.Compare) and len(a.ops) == 1 and isinstance(a.ops[0], (_ast.In, _ast.NotIn)) and isinstance(a.left, _ast.Attribute) and a.left.attr in ("name", "basename", "gasname", "alias"):
+                lst = a.comparators[0]
+                if isinstance(lst, _ast.Name):
+                    loc = [x.value for x in _ast.walk(fn) if isinstance(x, _ast.Assign) and len(x.targets) == 1 and isinstance(x.targets[0], _ast.Name) and x.targets[0].id == lst.id]
+                    if len(loc) == 1:
+                        lst = loc[0]
+                if isinstance(lst, (_ast.Attribute, _ast.Name)):
+                    nm = lst.attr if isinstance(lst, _ast.Attribute) else lst.id
+                    _, val = pkg.resolve_attr("HH93Grain", nm)
+                    if val is None:
+                        val = next((x.value for x in pkg.modules[HF].body if isinstance(x, _ast.Assign) and isinstance(x.targets[0], _ast.Name) and x.targets[0].id == nm), None)
+                    lst = val if val is not None else lst
+                try:
+                    names = set(_ast.literal_eval(lst))
+                except Exception:
+                    ctx.unrec("R12", f"HH93Grain.{k}:tunnelling species", (HF, a.lineno), f"cannot read the list of tunnelling species: {src[:80]}")
+                    continue
+                ok = a.left.attr == "name" and names <= TUNNELLING and bool(names)
+                n_ok += ok
+                ctx.check(ok, "R12", f"HH93Grain.{k}:tunnelling species", (HF, a.lineno), "tunnelling is switched on for surface H and H2 by name" if ok else
+                          f"the species that tunnel are selected by `{src}`: Hasegawa & Herbst 1993 let only atomic and molecular hydrogen (GH, GH2) tunnel -- a heavier species (or an ion / isotopologue "
+                          "sharing the basename) gets the quantum diffusion and barrier terms", expected="<reactant>.name in ['GH', 'GH2']", found=src[:100])
+            elif any(isinstance(x, _ast.Attribute) and x.attr in ("A", "massnumber", "mass", "n_atoms", "element_count") for x in _ast.walk(a)) and isinstance(a, _ast.Compare):
+                ctx.bad("R12", f"HH93Grain.{k}:tunnelling species", (HF, a.lineno),
+                        f"the species that tunnel are selected by mass / composition (`{src}`): atomic deuterium (A = 2) and every other species passing the test get the quantum diffusion and "
+                        "barrier-tunnelling terms that Hasegawa & Herbst 1993 give to atomic and molecular hydrogen only", expected="<reactant>.name in ['GH', 'GH2']", found=src[:100])
+    ctx.floor("R12", "name-based tunnelling selections", n_ok, 1, (HF, ci.node.lineno))
+
